@@ -517,12 +517,17 @@ def work_grammar(shard):
     for idx in range(lo, hi):
         ast = progs[idx]
         traces = {}
-        for variant in 'AB':
-            lines, used = build(ast, variant)
-            case = {'profile': pname, 'tier': tier, 'index': idx, 'variant': variant,
-                    'program': [t.decode('latin-1') for t in MB.program_text(lines)]}
-            outcomes, res = judge(part, runner, lines, case,
-                                  lambda oc, rs, used=used: _key(pname, _culprit(used, oc, rs)))
+        for variant in 'ABC':
+            # 'C': the lowering of 'B' written with a blank before every list comma and statement separator
+            lines, used = build(ast, 'B' if variant == 'C' else variant)
+            MB.LAYOUT = 'spaced' if variant == 'C' else 'tight'
+            try:
+                case = {'profile': pname, 'tier': tier, 'index': idx, 'variant': variant,
+                        'program': [t.decode('latin-1') for t in MB.program_text(lines)]}
+                outcomes, res = judge(part, runner, lines, case,
+                                      lambda oc, rs, used=used: _key(pname, _culprit(used, oc, rs)))
+            finally:
+                MB.LAYOUT = 'tight'
             part.n += 1
             traces[variant] = [(o.trace, o.final[:2]) for o in outcomes]
             cls = '%s/%s/%s' % (variant, _constructs(used) or '-', final_kind(outcomes[0]))
@@ -530,7 +535,7 @@ def work_grammar(shard):
             part.outcome(final_kind(outcomes[0]))
             if idx == lo and variant == 'B':
                 part.sample(case)
-        if traces['A'] != traces['B']:
+        if traces['A'] != traces['B'] or traces['C'] != traces['B']:
             raise CheckError('model gives different results for the two layouts of AST %r' % (ast,))
     return part
 
@@ -848,9 +853,13 @@ def replay(ctx, leg, case):
     if leg.startswith('grammar-'):
         progs = get_programs(case['profile'], case['tier'])
         ast = progs[case['index']]
-        lines, used = build(ast, case['variant'])
-        judge(part, runner, lines, case,
-              lambda oc, rs: _key(case['profile'], _culprit(used, oc, rs)))
+        lines, used = build(ast, 'B' if case['variant'] == 'C' else case['variant'])
+        MB.LAYOUT = 'spaced' if case['variant'] == 'C' else 'tight'
+        try:
+            judge(part, runner, lines, case,
+                  lambda oc, rs: _key(case['profile'], _culprit(used, oc, rs)))
+        finally:
+            MB.LAYOUT = 'tight'
     elif leg == 'forparam':
         sig, a, b, s, shape = case['forparam']
         cs = (sig, Fr(a), Fr(b), None if s is None else Fr(s), shape)
